@@ -102,6 +102,7 @@ class Sim:
             st["kind"] = "return"; st["status"] = int([l for l in fl if l.startswith("RETURN ")][0].split()[1])
             st["leaks"] = [l for l in fl if l.startswith("LEAK ")]
             st["kids"] = int([l for l in fl if l.startswith("RETURN ")][0].split("kids=")[1])
+            st["heapleak"] = any(l.startswith("HEAPLEAK 1") for l in fl)
         elif any(l.startswith("HANG") for l in fl):
             st["kind"] = "hang"; st["detail"] = [l for l in fl if l.startswith("HANG")][0]
         elif any(l.startswith("EXIT ABORT") for l in fl) or rc == 134:
